@@ -27,7 +27,7 @@ func C01(c *Ctx) {
 	r.Rule("C01-a", "on every path on which an evaluator returns ok=false the position is the one at entry (pt=Entry); for &, !, &{}, !{} on every return; stack depths (vstack, rstack, recoveryStack) and the inversion parity are as at entry on every return")
 	r.Rule("C01-b", "choice: alternatives are evaluated in slice order, the function returns at the first ok child with nothing evaluated after it, and returns failure only outside the loop; */+: the loop is left only after a failing child; each successful child contributes exactly one appended value; + fails iff nothing was appended; ? returns true on every path")
 	r.Rule("C01-c", "value provenance per kind (see DESIGN.md Appendix A): terminals sliceFrom(entry savepoint) up to the current position; predicates, state blocks and every ok=false return the literal nil; seq/*/+ the accumulator; choice/label/?/ruleRef/recovery/throw the child's value unchanged; action the result of the code block")
-	r.Rule("C01-d", "the type switch of parseExpr has one case per node type the builder can emit in this variant, each calling the evaluator of that kind with the switched value, and a default that panics; the builder lower-cases literal/class members iff it emits ignoreCase:true for the same node and the runtime folds the input rune iff ignoreCase")
+	r.Rule("C01-d", "the type switch of parseExpr has one case per node type the builder can emit in this variant, each calling the evaluator of that kind with the switched value, and a default that panics; the builder lower-cases literal/class members iff it emits ignoreCase:true for the same node and the runtime folds the input rune iff ignoreCase; the class matcher folds the input rune with unicode.ToLower - the function the builder folds the members with - exactly on the paths where ignoreCase holds and before every member test, and tests ranges inclusively at both ends")
 	r.Rule("C01-h", "class membership is any-of over the members: inside the loops of parseCharClassMatcher over chars, ranges and Unicode classes no local is set to the value of a test or to false (a flag may only rise to true) - a flag that every member overwrites lets the last member alone decide")
 	r.Rule("C01-e", "in parseAnyMatcher, parseCharClassMatcher and parseLitMatcher every call of read() is dominated by the fact 'not at end of input' (false edge of rn==utf8.RuneError && w==0 on the unfolded current rune, or true edge of cur < K with K <= 0xFFFD)")
 	r.Rule("C01-f", "parse() builds the rule table from all g.rules, looks the start rule up by p.entrypoint, and reports errInvalidEntrypoint with a nil value when it is absent")
@@ -69,6 +69,7 @@ func C01(c *Ctx) {
 	c01dLowering(c)
 	c01gRangeImage(c, "C01-g")
 	basicLatinCaseClosure(c, "C01-d")
+	basicLatinSiblingForms(c, "C01-d") // the general path folds with unicode.ToLower exactly under ignoreCase, before every member test; ranges inclusive
 	builderPairingN(c, "C01-d")
 }
 
